@@ -422,8 +422,9 @@ def run_check(prop, argv=None):
         harness_error = 'worker pool failed: %r' % (e,)
     if agg['errors']:
         harness_error = 'exceptions in harness:\n' + '\n'.join(agg['errors'][:3])
+    det_note = None
     if agg['det_mismatch']:
-        harness_error = 'nondeterministic runs: %r' % (agg['det_mismatch'][:5],)
+        det_note = 'nondeterministic runs: %r' % (agg['det_mismatch'][:5],)
 
     # ---- violations -> known findings / shrink / replay files
     known = known_open(prop.ID)
@@ -483,6 +484,16 @@ def run_check(prop, argv=None):
         else:
             print('KNOWN-FINDING-GONE: property=%s %s no longer reproduces '
                   '(%s)' % (prop.ID, kk, rp))
+    if det_note:
+        # the same case gave two different traces in one process.  If a
+        # violation was confirmed by a fresh-interpreter replay this is the
+        # code under test leaking state between connections (the violation
+        # stands); otherwise it is a harness problem.
+        if new_violations:
+            print('note: %s (state leaking between runs of one process)'
+                  % det_note)
+        else:
+            harness_error = harness_error or det_note
     for kk, cnt in reported_known.items():
         print('KNOWN-FINDING: property=%s %s [%s; %d case(s) this run]' % (
             prop.ID, known[kk]['summary'], kk, cnt))
